@@ -24,8 +24,9 @@ LEVEL_TEXT = ('Generated-input search: 2k epoch_df cases + 500 axis=None pipelin
               'coincide with closing extrema, to be shorter than a period (empty epochs) or arbitrary. Exact comparison.')
 RULE = ('epoch_df: synthetic tables (both centrings, 1..25 rows) and real tables; epoch_len in {a closing-extremum sample / m, shorter '
         'than the shortest period, arbitrary}; sig_len a multiple of epoch_len or arbitrary >= last extremum. axis=None: arrays (n_epochs, L) '
-        'cut from a generated signal with L chosen from closing extrema of the uncut analysis / arbitrary; one option set, or a per-epoch '
-        'list (same method and centring, different thresholds). Oracle: number of epochs = ceil(sig_len / L); concatenating the epochs after '
+        'cut from a generated signal with L chosen from closing extrema of the uncut analysis / arbitrary; one option set, a per-epoch '
+        'list (same method and centring, different thresholds) or the same dict object repeated; C / Fortran / transposed-view memory layout; '
+        'optionally the call is repeated with the same argument objects. Oracle: number of epochs = ceil(sig_len / L); concatenating the epochs after '
         'adding back k*L reproduces the flattened table row for row; row r sits in epoch k with k*L < closing_r <= (k+1)*L; all feature '
         'columns bit-identical; labels = flattened labels (one option set) or the reference labeller applied to the epoch rows with the '
         'epoch thresholds (list). Non-trivial: an epoch boundary coinciding with a closing extremum, or an empty epoch, or a burst spanning '
@@ -172,11 +173,23 @@ def check_axis_none(case, rec):
     if pipeline_cols is None or len(pipeline_cols[nm['center']]) < 2:
         raise Discard('fewer than three full oscillations after cutting')
     sigs = xs.reshape(n_ep, L)
+    layout = case.get('layout', 'C')
+    if layout == 'F':
+        sigs = np.asfortranarray(sigs)                 # same values and shape, column-major memory
+    elif layout == 'T':
+        sigs = np.ascontiguousarray(sigs.T).T          # transposed view of a (L, n_epochs) recording
     kw0 = gen.cf_kwargs(c)
     kw0.pop('return_samples')
     if case['mode'] == 'dict':
         arg = kw0
         ths = None
+    elif case['mode'] == 'same-dict-list':
+        ths = [case['ths'][0]] * n_ep
+        d = gen.cf_kwargs(c)
+        d.pop('return_samples')
+        d['threshold_kwargs'] = gen.copy_json(ths[0])
+        arg = [d] * n_ep                               # one dict object repeated, as a caller writes [kwargs] * n_epochs
+        kw0 = dict(kw0, threshold_kwargs=gen.copy_json(ths[0]))
     else:
         ths = case['ths'][:n_ep] + [case['ths'][-1]] * max(0, n_ep - len(case['ths']))
         arg = []
@@ -188,7 +201,7 @@ def check_axis_none(case, rec):
         kw0 = dict(kw0, threshold_kwargs=gen.copy_json(ths[0]))
     if c['method'] == 'amp':
         cm = dict(c, th=(kw0.get('threshold_kwargs')))
-        if case['mode'] == 'list' and 'min_n_cycles' in (c.get('bk') or {}):
+        if case['mode'] != 'dict' and 'min_n_cycles' in (c.get('bk') or {}):
             raise Discard('per-epoch list with min_n_cycles in the burst options (kept out, see assumptions)')
         pipeline.trusted_burst_mask(cm, xs)
     with warnings.catch_warnings():
@@ -200,7 +213,7 @@ def check_axis_none(case, rec):
     if not np.array_equal(sigs, sig_before):
         raise Violation('axis-none:input-array-modified', '')
     coincide, empty, spanning, assignment = partition_check('axis-none', flat, epochs, L, len(xs), nm, compare_labels=(case['mode'] == 'dict'))
-    if case['mode'] == 'list':
+    if case['mode'] != 'dict':
         for k, ((p, n), ep) in enumerate(zip(assignment, epochs)):
             if n == 0:
                 continue
@@ -208,7 +221,16 @@ def check_axis_none(case, rec):
             got = ep['is_burst'].values
             if not np.array_equal(got, want):
                 raise Violation('axis-none:per-epoch-labels', 'epoch %d thresholds %s: %s' % (k, ths[k], ref.first_diff(got, want)))
+    if case.get('second_call'):
+        # the same argument objects a second time: the partition must be the same
+        with warnings.catch_warnings():
+            warnings.simplefilter('ignore')
+            again = with_timeout(lambda: guarded(compute_features_2d, sigs, c['fs'], tuple(c['f_range']), compute_features_kwargs=arg,
+                                                 axis=None, return_samples=True, n_jobs=1), 60)
+        if len(again) != len(epochs) or any(not ref.frames_equal(a, b)[0] for a, b in zip(again, epochs)):
+            raise Violation('axis-none:second-call-differs', 'mode %s: repeating the call with the same argument objects changes the result' % case['mode'])
     rec.label(*gen.case_labels(c))
+    rec.label('layout:' + layout, 'second-call' if case.get('second_call') else 'single-call')
     rec.label('mode:' + case['mode'], 'epochs:%s' % ('1' if n_ep == 1 else ('2-5' if n_ep <= 5 else '>5')),
               'boundary-coincidence' if coincide else 'no-coincidence', 'empty-epoch' if empty else 'no-empty-epoch',
               'burst-spans-boundary' if spanning else 'no-spanning-burst')
@@ -219,9 +241,9 @@ def check_axis_none(case, rec):
 def strat_axis_none(draw, tier):
     c = draw(gen.st_analysis_case(max_n=2500, min_periods=14, bursty=draw(st.booleans())))
     c['return_samples'] = True
-    mode = draw(st.sampled_from(['dict', 'dict', 'list']))
+    mode = draw(st.sampled_from(['dict', 'dict', 'list', 'list', 'same-dict-list']))
     ths = []
-    if mode == 'list':
+    if mode != 'dict':
         if c['method'] == 'cycles':
             ths = [draw(gen.st_thresholds_cycles(allow_none=False)) for _ in range(draw(st.integers(1, 6)))]
         else:
@@ -229,7 +251,8 @@ def strat_axis_none(draw, tier):
                     'min_n_cycles': draw(st.integers(0, 4))} for _ in range(draw(st.integers(1, 6)))]
             if c.get('bk'):
                 c['bk'].pop('min_n_cycles', None)
-    return {'base': c, 'mode': mode, 'ths': ths,
+    return {'base': c, 'mode': mode, 'ths': ths, 'layout': draw(st.sampled_from(['C', 'C', 'F', 'T'])),
+            'second_call': draw(st.integers(0, 3)) == 0,
             'epoch': [draw(st.sampled_from(['coincide', 'coincide', 'short', 'arbitrary', 'arbitrary'])), draw(st.integers(0, 500)), draw(st.integers(0, 5))]}
 
 
